@@ -168,8 +168,9 @@ def check(case):
                 hist.append("orth-cos-beta-deficit/%s" % ("<1e-6" if m < 1e-6 else "<1e-3" if m < 1e-3 else ">=1e-3"))
                 continue
 
-            def cmpb(name, got, want, rtol=1e-8):
-                err = numpy.abs(got - want) / (numpy.abs(want) + 1e-300)
+            def cmpb(name, got, want, rtol=1e-8, atol=0.0):
+                # atol: absolute floor (round-off of the measured angle where tan(beta) ~ 0)
+                err = numpy.maximum(numpy.abs(got - want) - atol, 0.0) / (numpy.abs(want) + 1e-300)
                 err = numpy.where(near, 0.0, err)
                 margin("closed-form-beta", err.max() / rtol)
                 if err.max() > rtol:
@@ -181,7 +182,8 @@ def check(case):
 
             cmpb("g22", nc["g22" + sfx][xs:xe, ys:ye], 1.0 / (hyv * cosb_) ** 2)
             cmpb("g_11", nc["g_11" + sfx][xs:xe, ys:ye], 1.0 / (Rv * Bpv * cosb_) ** 2)
-            cmpb("|g_12|", numpy.abs(nc["g_12" + sfx][xs:xe, ys:ye]), hyv * tanb_ / (Rv * numpy.abs(Bpv)), rtol=1e-7)
+            cmpb("|g_12|", numpy.abs(nc["g_12" + sfx][xs:xe, ys:ye]), hyv * tanb_ / (Rv * numpy.abs(Bpv)), rtol=1e-7,
+                 atol=1e-10 * hyv / (Rv * numpy.abs(Bpv)))
             cmpb("g33", nc["g33" + sfx][xs:xe, ys:ye], 1.0 / Rv**2 + (dph / (hyv * cosb_)) ** 2)
         # (4) displacement scalar products at interior centres (sign-convention free)
         nxr, nyr = Rc.shape
